@@ -549,6 +549,9 @@ def gen_fs_case(rng, idx, quick, wlen):
         for nm, pristine in names:
             if rng.chance(1, 30):
                 sops.append(["readcfg", str(rng.choice([0, 1, 7, 4096, 65535, 65536])), str(rng.choice([0, 0, 2, 3, 5]))])
+                if base is not None and rng.chance(2, 3):
+                    # a scripted read WHILE a readcfg is in force (the script alone must decide), with errors/EINTR after the data
+                    sops.append(["readscript", H(abs_of(base) + b"/a.txt"), gen_script(rng, force=True)])
             if pristine and base is not None and rng.chance(1, 25) and b"\0" not in nm:
                 sops.append(["readscript", H(abs_of(base) + b"/" + nm), gen_script(rng)])
             leafdir = (base if base is not None else (b"app", key.encode())) + tuple(c for c in nm.split(b"/")[:-1] if c not in (b"", b"."))
@@ -576,10 +579,17 @@ SCHED_N = [0]
 BIG_SIZES = [0, 1, 65535, 65536, 65537, 131072, 200000]
 
 
-def gen_script(rng):
-    """answers of read(2): e = EINTR, x = another errno, k = at most k bytes"""
+def gen_script(rng, force=False):
+    """answers of read(2): e = EINTR, x = another errno, k = at most k bytes.  `force`: sizes that cover a small file early, then
+    EINTR / error answers that are only reached if something clamps the sizes (thorough seed 11 found exactly that)"""
+    if force:
+        toks = [rng.choice(["3", "64", "70000", "e"]) for _ in range(rng.range(1, 3))] + [rng.choice(["64", "70000", "4096"]), rng.choice(["1", "7"])]
+        toks += [rng.choice(["e", "x", "7", "x"]) for _ in range(rng.range(1, 4))]
+        if rng.chance(1, 4):
+            toks.insert(rng.below(3), "x")             # an error BEFORE the data is complete: nullopt on both sides
+        return ",".join(toks)
     n = rng.range(0, 8)
-    toks = [rng.choice(["e", "e", "1", "2", "3", "7", "64", "4096", "65536", "70000"] + (["x"] if rng.chance(1, 6) else [])) for _ in range(n)]
+    toks = [rng.choice(["e", "e", "1", "2", "3", "7", "64", "4096", "65536", "70000"] + (["x"] if rng.chance(1, 4) else [])) for _ in range(n)]
     return ",".join(toks) if toks else "-"
 
 
